@@ -44,6 +44,12 @@ type c15Cfg struct {
 	Compressed        bool   `json:"compressed"`         // handler converters
 	StoreUncompressed bool   `json:"store_uncompressed"` // upstream LocalStore option
 	StoreWritable     bool   `json:"store_writable"`     // upstream implements WriteStore / IndexWriteStore
+	// how a `desync chunk-server` / `index-server` process is given its options (plumbing cases):
+	// Auth above is then the value the documentation promises (flag if given, else environment)
+	Plumbing       bool   `json:"cli_plumbing,omitempty"`
+	AuthFlag       string `json:"authorization_flag,omitempty"`
+	AuthEnv        string `json:"desync_http_auth_env,omitempty"`
+	SkipVerifyRead string `json:"skip_verify_read,omitempty"` // "default" (flag not given: true) | "true" | "false"
 }
 
 type c15Case struct {
@@ -588,8 +594,14 @@ func c15Model(o *vh.Oracle, r *vh.Result, c *c15Case, hpath, hauth string, reqBo
 			blobs = append(blobs, vh.UnHex(kv[65:]))
 		}
 		zt, ct := c15ZTables(blobs...)
-		ans, err = o.Call("c15.chunk", vh.Hex([]byte(cfg.Auth)), b01(cfg.Writable), b01(cfg.SkipVerifyWrite), b01(cfg.Compressed),
-			b01(cfg.StoreWritable), b01(cfg.StoreUncompressed), "0", c.Method, vh.Hex([]byte(hpath)), vh.Hex([]byte(hauth)), vh.Hex(reqBody), files, zt, ct)
+		if cfg.Plumbing {
+			// from the options as given on the command line / in the environment (Model/ServerCLI.v)
+			ans, err = o.Call("c15.clichunk", vh.Hex([]byte(cfg.AuthFlag)), vh.Hex([]byte(cfg.AuthEnv)), b01(cfg.Writable), b01(cfg.SkipVerifyWrite),
+				b01(cfg.SkipVerifyRead != "false"), b01(!cfg.Compressed), c.Method, vh.Hex([]byte(hpath)), vh.Hex([]byte(hauth)), vh.Hex(reqBody), files, zt, ct)
+		} else {
+			ans, err = o.Call("c15.chunk", vh.Hex([]byte(cfg.Auth)), b01(cfg.Writable), b01(cfg.SkipVerifyWrite), b01(cfg.Compressed),
+				b01(cfg.StoreWritable), b01(cfg.StoreUncompressed), "0", c.Method, vh.Hex([]byte(hpath)), vh.Hex([]byte(hauth)), vh.Hex(reqBody), files, zt, ct)
+		}
 		wantAfter, _ = c15ModelFiles(post, cfg.StoreUncompressed)
 	} else {
 		var tab []string
@@ -612,8 +624,13 @@ func c15Model(o *vh.Oracle, r *vh.Result, c *c15Case, hpath, hauth string, reqBo
 			}
 		}
 		sort.Strings(tab)
-		ans, err = o.Call("c15.index", vh.Hex([]byte(cfg.Auth)), b01(cfg.Writable), b01(cfg.StoreWritable), c.Method,
-			vh.Hex([]byte(hpath)), vh.Hex([]byte(hauth)), vh.Hex(reqBody), c15ModelDir(pre), strings.Join(tab, ","))
+		if cfg.Plumbing {
+			ans, err = o.Call("c15.cliindex", vh.Hex([]byte(cfg.AuthFlag)), vh.Hex([]byte(cfg.AuthEnv)), b01(cfg.Writable), c.Method,
+				vh.Hex([]byte(hpath)), vh.Hex([]byte(hauth)), vh.Hex(reqBody), c15ModelDir(pre), strings.Join(tab, ","))
+		} else {
+			ans, err = o.Call("c15.index", vh.Hex([]byte(cfg.Auth)), b01(cfg.Writable), b01(cfg.StoreWritable), c.Method,
+				vh.Hex([]byte(hpath)), vh.Hex([]byte(hauth)), vh.Hex(reqBody), c15ModelDir(pre), strings.Join(tab, ","))
+		}
 		wantAfter = c15ModelDir(post)
 	}
 	if err != nil {
@@ -967,6 +984,10 @@ func runC15(a vh.Args, o *vh.Oracle, r *vh.Result) error {
 		if err != nil {
 			return err
 		}
+	}
+	// the flag / environment plumbing of the binaries (both tiers)
+	if err := c15Plumbing(a, o, r, rng); err != nil {
+		return err
 	}
 	if a.Tier == "thorough" {
 		return c15CLI(a, o, r, rng)
